@@ -1,6 +1,8 @@
 """Harness pieces for C04: the table language model as a torch module whose state is *threaded*
 through the search, and a BeamSearch subclass that only observes (documented hook)."""
 
+from typing import Dict, Tuple
+
 import torch
 
 import pydrobert.torch.modules as M
@@ -24,10 +26,13 @@ class TableLM(M.MixableSequentialLanguageModel):
     first.  A caller that hands over state belonging to another path therefore gets the logits of that
     other path's history and batch element."""
 
-    def __init__(self, model: O.TableModel):
+    def __init__(self, model: O.TableModel, trainable: bool = False):
         super().__init__(model.V)
         self.model = model
-        self.register_buffer("rows", torch.tensor(model.rows, dtype=torch.float32))
+        if trainable:  # the logits then require grad (autograd-state variants)
+            self.rows = torch.nn.Parameter(torch.tensor(model.rows, dtype=torch.float32))
+        else:
+            self.register_buffer("rows", torch.tensor(model.rows, dtype=torch.float32))
         self.register_buffer("bias", torch.tensor(model.bias, dtype=torch.float32))
         self.size = model.size
         self.n_calls = 0
@@ -102,3 +107,61 @@ class ObservedBeamSearch(M.BeamSearch):
             )
         )
         return log_probs_prev, log_probs_t
+
+
+class ScriptTableLM(M.MixableSequentialLanguageModel):
+    """The same threaded-state table model written in the TorchScript subset (no counters, no harness
+    exceptions), so that torch.jit.script(BeamSearch(torch.jit.script(lm), ...)) can be explored."""
+
+    def __init__(self, model: O.TableModel):
+        super().__init__(model.V)
+        self.register_buffer("rows", torch.tensor(model.rows, dtype=torch.float32))
+        self.register_buffer("bias", torch.tensor(model.bias, dtype=torch.float32))
+        self.size = model.size
+        self.deep_rows = O.DEEP_ROWS
+
+    @torch.jit.export
+    def update_input(self, prev: Dict[str, torch.Tensor], hist: torch.Tensor) -> Dict[str, torch.Tensor]:
+        N = hist.size(1)
+        out: Dict[str, torch.Tensor] = {}
+        if "off" in prev:
+            out["off"] = prev["off"]
+        else:
+            out["off"] = torch.zeros(N, dtype=torch.long, device=hist.device)
+        if "code" in prev:
+            out["code"] = prev["code"]
+        else:
+            out["code"] = torch.zeros(N, dtype=torch.long, device=hist.device)
+        return out
+
+    @torch.jit.export
+    def calc_idx_log_probs(
+        self, hist: torch.Tensor, prev: Dict[str, torch.Tensor], idx: torch.Tensor
+    ) -> Tuple[torch.Tensor, Dict[str, torch.Tensor]]:
+        V = self.vocab_size
+        size = self.size
+        N = hist.size(1)
+        code = prev["code"]
+        off = prev["off"]
+        idx_ = idx.expand(N) if idx.dim() == 0 else idx
+        if hist.size(0) > 0:
+            tok = hist.gather(0, (idx_ - 1).clamp(min=0).unsqueeze(0)).squeeze(0).clamp(0, V - 1)
+            n = code * V + tok + 1
+            shallow = torch.where(n < size, n, size + n % self.deep_rows)
+            deep = size + ((code - size) * V + tok + 1) % self.deep_rows
+            code = torch.where(idx_ > 0, torch.where(code < size, shallow, deep), code)
+        logits = self.rows[code] + self.bias[off]
+        return logits, {"code": code, "off": off}
+
+    @torch.jit.export
+    def extract_by_src(self, prev: Dict[str, torch.Tensor], src: torch.Tensor) -> Dict[str, torch.Tensor]:
+        return {"code": prev["code"].index_select(0, src), "off": prev["off"].index_select(0, src)}
+
+    @torch.jit.export
+    def mix_by_mask(
+        self, prev_true: Dict[str, torch.Tensor], prev_false: Dict[str, torch.Tensor], mask: torch.Tensor
+    ) -> Dict[str, torch.Tensor]:
+        return {
+            "code": torch.where(mask, prev_true["code"], prev_false["code"]),
+            "off": torch.where(mask, prev_true["off"], prev_false["off"]),
+        }
